@@ -10,6 +10,7 @@ QUERIES = [
     q("pubkey_tweak_mul", "harness_pubkey_tweak_mul", "pubkey_tweak_mul: failure set (zero / >= n tweak), tP hand-over, output/zeroing"),
     q("xonly_taproot", "harness_xonly", "xonly_from_pubkey, xonly_tweak_add, tweak_add_check accepts exactly the produced (x, parity)"),
     q("keypair_taproot", "harness_keypair_tweak", "keypair_xonly_pub and keypair_xonly_tweak_add: parity-dependent secret negation on both sides, failure zeroing"),
+    q("keypair_taproot_invalid", "harness_keypair_tweak_invalid", "keypair_xonly_tweak_add on invalid keypair objects: one illegal callback, failure, whole object wiped"),
     q("pubkey_cmp", "harness_cmp", "ec_pubkey_cmp == lexicographic order of compressed encodings for all key-object pairs, invalid keys as zero bytes"),
 ]
 for nk in (1, 2, 3):
